@@ -1253,6 +1253,41 @@ impl DiagnosticMessage for FunctionCallError {
     }
 }
 
+#[cfg(vrl_verif)]
+impl FunctionCall {
+    /// verification hook: `(keyword, expression)` of every argument, in call order.
+    #[must_use]
+    pub fn verif_arguments(&self) -> Vec<(Option<String>, &crate::compiler::expression::Expr)> {
+        self.arguments
+            .iter()
+            .map(|arg| (arg.keyword().map(ToOwned::to_owned), arg.inner().expr()))
+            .collect()
+    }
+
+    /// verification hook: the compiled closure, if any.
+    #[must_use]
+    pub fn verif_closure(&self) -> Option<&Closure> {
+        self.closure.as_ref()
+    }
+
+    /// verification hook: identifier, abort-on-error flag and call span.
+    #[must_use]
+    pub fn verif_head(&self) -> (&'static str, bool, usize, usize) {
+        (
+            self.ident,
+            self.abort_on_error,
+            self.span.start(),
+            self.span.end(),
+        )
+    }
+
+    /// verification hook: the compiled function expression.
+    #[must_use]
+    pub fn verif_function_expr(&self) -> &dyn Expression {
+        &*self.expr
+    }
+}
+
 #[cfg(test)]
 mod tests {
     use crate::compiler::{Category, FunctionExpression, value::kind};
